@@ -12,7 +12,8 @@ THEOREMS = ["C07_numerals_bounded", "C07_hex_numerals_bounded", "C07_saturation_
 RULE = ("every sequence of up to k lexical fragments from the language's alphabet (k=2 quick over the full alphabet, "
         "k=3 over a reduced alphabet; thorough k=3 full), random junk text incl. non-ASCII, grammar programs with arguments "
         "dropped/duplicated/out of range (every command name of the implementation's table x 16 argument shapes, every reservation head x "
-        "reservation command x argument shape, each followed by notes), truncations and mutations of /repo/samples; non-trivial = distinct input of >= 2 fragments")
+        "reservation command x argument shape, each followed by notes), truncations and mutations of /repo/samples, programs of the extended "
+        "pipeline fragment (mmlgen.ext_program: controllers, bends, RPN, reservations, PLAY, Str); non-trivial = distinct input of >= 2 fragments")
 TRUSTED = ["watchdog: a case that makes no progress for 15 s counts as a hang",
            "stack overflow / allocation failure / 64-bit overflow checks live in the runtime: observed on the implementation (debug build), not provable on the model"]
 ASSUMES = ["work the program explicitly requests (huge repeat counts, lengths, track numbers > 999, unbounded recursion) is excluded as the property says"]
@@ -131,6 +132,9 @@ def run(ctx):
                 s = mmlgen.mutate(rng, s)
             srcs.append(s)
     srcs += mmlgen.samples()
+    # programs of the extended pipeline fragment (controllers, bends, reservations, PLAY, Str): in FRONT, so that they are
+    # part of the correspondence subset below in every tier
+    srcs = [mmlgen.ext_program(rng) for _ in range(800 if ctx.tier == "quick" else 30000)] + srcs
     # corpus of repaired crash/hang witnesses
     import json, os
     p = os.path.join(vlib.VERIF, "corpus", "C07.jsonl")
